@@ -310,6 +310,10 @@ def run_property(pid: str, tier: str, seed: int, jobs: int = 16, only: Optional[
                     "bounds": obmap[k].bounds, "stubs": list(obmap[k].stubs)}
                 for k, o in per_ob.items()
             },
+            "slowest_jobs": [
+                {"obligation": r["ob"], "param": r["param"], "wall_s": round(r.get("job_wall_s", 0.0), 1), "paths": r.get("paths")}
+                for r in sorted(results, key=lambda r: -r.get("job_wall_s", 0.0))[:5]
+            ],
             "samples": samples or [{"note": "no path with a non-empty path condition"}],
             "nonreproducing_models": nonrepro,
             "known_findings_hit": [kf.get("what") for _, kf in known_hits],
